@@ -131,6 +131,8 @@ def getters(ub):
     for w in WHICH:
         v = getattr(ub, w)
         out.append(None if v is None else [float(x) for x in np.asarray(v).T[0]])
+        if isinstance(v, np.ndarray) and v.flags.writeable:
+            v[...] = (np.asarray(v, float) * -3.0 + 1.0).astype(v.dtype)      # what a getter hands out is the caller's: normalising / flipping it in place must not reach the calculation
     return out
 
 
@@ -234,6 +236,15 @@ def oracle(ctx, widen=1):
                         want = unit(UB @ np.asarray(v)) if frame_hkl else unit(np.linalg.solve(UB, np.asarray(v)))
                         if np.abs(np.asarray(go).T[0] - want).max() > 1e-9:
                             bad = f"{other} = {np.asarray(go).T[0].tolist()} is not the unit vector along UB^{'+1' if frame_hkl else '-1'} v = {want.tolist()}"
+                    if not bad:
+                        # the arrays handed out are the caller's: changing them in place must not reach the calculation
+                        for g in (gs, go):
+                            if isinstance(g, np.ndarray) and g.flags.writeable:
+                                g[...] = (np.asarray(g, float) * -3.0 + 1.0).astype(g.dtype)
+                        gs2 = getattr(ub, same)
+                        if gs2 is None or np.abs(np.asarray(gs2).T[0] - np.asarray(v)).max() > 1e-12:
+                            bad = (f"{same} reports {None if gs2 is None else np.asarray(gs2).T[0].tolist()} for the value {v} set in that frame, after the caller "
+                                   f"changed in place the arrays that {same} / {other} had returned")
                     if bad:
                         break
             except Exception as e:  # noqa
